@@ -25,7 +25,9 @@ import re
 import z3
 
 from pyvc import loader
+from pyvc.interp import PathEnd
 from pyvc.pack import Case, Ground
+from pyvc.sym import EngineError
 from specs import evm_word as W
 
 loader.import_repo()
@@ -128,6 +130,43 @@ def ground_refine():
     return out
 
 
+def ground_refine_joint():
+    """one query that uses several abstraction symbols at once (every symbol together, and every
+    pair): each of them must be refined, whatever else is declared in the same query"""
+    import itertools
+
+    out = []
+    syms = abstraction_symbols()
+    names = list(syms)
+    groups = [tuple(names)] + [pair for pair in itertools.combinations(names, 2)]
+    for group in groups:
+        p = hs.Path(hu.create_solver())
+        want = []
+        for k, name in enumerate(group):
+            f = syms[name]
+            n = f.domain(0).size()
+            x, y, r = z3.BitVec(f"x{k}", n), z3.BitVec(f"y{k}", n), z3.BitVec(f"r{k}", n)
+            p.append(f(x, y) == r)
+            D = exact_definition(f, x, y)
+            want.append((D == r) if D is not None else (f(x, y) == r))
+        q = p.to_smt2(config())
+        refined = hsolve.refine(q)
+        gid = "refine-joint/" + ("all-symbols" if len(group) > 2 else "+".join(group))
+        try:
+            parsed = z3.parse_smt2_string(refined.smtlib)
+        except z3.Z3Exception as e:
+            out.append((gid + "/refined-query-parses", False, str(e)[:200]))
+            continue
+        left = [name for name in group if f"(declare-fun {name} " in refined.smtlib and exact_definition(syms[name], z3.BitVec("a", syms[name].domain(0).size()), z3.BitVec("b", syms[name].domain(0).size())) is not None]
+        out.append((gid + "/no-refinable-symbol-left-uninterpreted", not left, f"still declared (uninterpreted) after refine: {left}"))
+        s = z3.Solver()
+        s.set("timeout", 120000)
+        s.add(z3.And(*parsed) != z3.And(*want))
+        res = s.check()
+        out.append((gid + "/equals-exact-EVM-definitions", _tri(res), f"conjunction over {len(group)} symbols [{res}]", "z3-4.12.6"))
+    return out
+
+
 def ground_lemma():
     p, c = z3.Bools("p c")
     out = []
@@ -171,39 +210,157 @@ class RecSolver:
         self.log.append(("reset",))
 
 
-class Poison:
-    def __getattr__(self, name):
-        raise AssertionError("Path.to_smt2 read self.solver")
+class SubsetSolver(RecSolver):
+    """stands for self.solver of a path: it may hold only a *subset* of the conditions (sliced
+    parent), so nothing it serialises may end up in the query"""
+
+    def to_smt2(self):
+        self.log.append(("self.solver.to_smt2",))
+        return "SUBSET-OF-THE-CONDITIONS\n(check-sat)\n"
+
+    def sexpr(self):
+        self.log.append(("self.solver.sexpr",))
+        return "SUBSET-OF-THE-CONDITIONS"
+
+    def assertions(self):
+        self.log.append(("self.solver.assertions",))
+        return []
+
+
+def _blank_path(solver):
+    from collections import defaultdict
+
+    p = object.__new__(hs.Path)
+    p.solver = solver
+    p.num_scopes = 0
+    p.conditions = {}
+    p.concretization = hs.Concretization()
+    p.pending = []
+    p.related = {}
+    p.var_to_conds = defaultdict(set)
+    p.term_to_vars = {}
+    p.sliced = None
+    return p
+
+
+def replay_to_smt2(r):
+    """real paths: the serialised query must be equivalent to the conjunction of all conditions,
+    also for a child that extends a sliced parent (whose solver holds only a subset)"""
+    x, y, z = z3.BitVecs("p_x_uint256 storage_y other_z", 256)
+    for do_slice in (False, True):
+        for cache in (False, True):
+            parent = hs.Path(hu.create_solver())
+            parent.append(z3.UGT(x, 5))
+            parent.append(y == 1)
+            if do_slice:
+                parent.slice({y})
+            child = hs.Path(hu.create_solver())
+            child.extend_path(parent)
+            child.append(z3.ULT(z, 3))
+            conds = list(child.conditions)
+            q = child.to_smt2(config(cache_solver=True) if cache else config())
+            try:
+                parsed = list(z3.parse_smt2_string(q.smtlib))
+            except z3.Z3Exception as e:
+                return {"reproduced": True, "detail": f"query does not parse: {e}"}
+            ids = [z3.Bool(i) for i in q.assertions] if cache else []
+            s = z3.Solver()
+            s.add(z3.And(*(parsed + ids)) != z3.And(*(conds + ids)))
+            if s.check() != z3.unsat or len(q.assertions) != len(conds):
+                return {"reproduced": True, "detail": f"Path.to_smt2 (parent sliced={do_slice}, cache_solver={cache}): query has {len(parsed)} assertion(s) and is not equivalent to the {len(conds)} path conditions {conds}; query assertions: {parsed}"}
+    return {"reproduced": False, "detail": "real Path.to_smt2 output is equivalent to the path conditions on the replay paths"}
 
 
 def to_smt2_cases():
     out = []
     for n in (0, 1, 2, 3):
         for cache in (False, True):
+            for sliced in ("not-sliced", "sliced"):
 
-            def harness(interp, n=n, cache=cache):
+                def harness(interp, n=n, cache=cache, sliced=sliced):
+                    ctx = interp.ctx
+                    log = []
+                    conds = [OpaqueCond(k, log) for k in range(n)]
+                    p = _blank_path(SubsetSolver(None, log))
+                    p.conditions = {c: True for c in conds}
+                    p.sliced = None if sliced == "not-sliced" else set(range(0, n, 2))
+                    the_ctx = object()
+                    interp.externals[hs.Context] = lambda i, *a, **k: the_ctx
+                    interp.externals[hs.create_solver] = lambda i, *a, **k: RecSolver(k.get("ctx"), log)
+                    args = config(cache_solver=True) if cache else config()
+                    try:
+                        q = interp.call(hs.Path.to_smt2, [p, args], {})
+                    except (EngineError, PathEnd):
+                        raise
+                    except BaseException as e:  # noqa
+                        ctx.oblige(f"no-exception[{type(e).__name__}]", z3.BoolVal(False), info={"msg": str(e)[:200]})
+                        return
+                    ids = [str(1000 + k) for k in range(n)]
+                    ctx.oblige("ids-aligned-with-conditions", z3.BoolVal(list(q.assertions) == ids))
+                    asserted = [e for e in log if e[0] in ("add", "track")]
+                    want = [("track", ("translated", k, the_ctx), str(1000 + k)) if cache else ("add", ("translated", k, the_ctx)) for k in range(n)]
+                    ctx.oblige("every-condition-asserted-once-in-order", z3.BoolVal(asserted == want), info={"got": str(asserted)[:300]})
+                    ser = [i for i, e in enumerate(log) if e[0] == "to_smt2"]
+                    last_assert = max([i for i, e in enumerate(log) if e[0] in ("add", "track")], default=-1)
+                    ctx.oblige("serialised-after-all-assertions", z3.BoolVal(len(ser) == 1 and ser[0] > last_assert))
+                    ctx.oblige("query-text-is-the-serialisation-of-all-conditions-without-check-sat", z3.BoolVal(q.smtlib == "BODY\n\n"), info={"got": str(q.smtlib)[:80]})
+                    ctx.oblige("self.solver-(possibly a subset)-is-never-serialised", z3.BoolVal(not any(e[0].startswith("self.solver.") for e in log)))
+
+                out.append(Case(f"{PROP}/sevm.Path.to_smt2", f"n={n},cache={cache},{sliced}", harness, replay=replay_to_smt2, sources=("halmos.sevm:Path.to_smt2",)))
+    return out
+
+
+def path_growth_cases():
+    """Path.append / Path.extend_path: self.conditions holds every accumulated constraint"""
+    out = []
+
+    for kind in ("new", "duplicate", "true", "new-after-others"):
+
+        def harness(interp, kind=kind):
+            ctx = interp.ctx
+            log = []
+            p = _blank_path(RecSolver(None, log))
+            a, b, c = z3.Bools("a b c")
+            pre = [a, b] if kind in ("duplicate", "new-after-others") else []
+            for x in pre:
+                hs.Path.append(p, x, True)
+            del log[:]
+            before = dict(p.conditions)
+            new = {"new": c, "duplicate": a, "true": z3.BoolVal(True), "new-after-others": c}[kind]
+            interp.call(hs.Path.append, [p, new], {"branching": True})
+            if kind in ("new", "new-after-others"):
+                ctx.oblige("append: the condition is recorded (last, with its branching flag)", z3.BoolVal(list(p.conditions.items()) == list(before.items()) + [(c, True)]))
+                ctx.oblige("append: the same condition goes to the solver", z3.BoolVal(log == [("add", c)]))
+            else:
+                ctx.oblige("append: a duplicate or trivially true condition changes nothing", z3.BoolVal(p.conditions == before and log == []))
+            ctx.oblige("append: earlier conditions are kept", z3.BoolVal(list(p.conditions.items())[: len(before)] == list(before.items())))
+
+        out.append(Case(f"{PROP}/sevm.Path.append", kind, harness, sources=("halmos.sevm:Path.append",)))
+
+    for n in (0, 1, 3):
+        for sliced in ("parent-not-sliced", "parent-sliced"):
+
+            def harness(interp, n=n, sliced=sliced):
                 ctx = interp.ctx
+                conds = [z3.Bool(f"c{k}") if k % 2 else (z3.BitVec(f"v{k}", 8) == k) for k in range(n)]
+                parent = _blank_path(RecSolver(None, []))
+                for k, x in enumerate(conds):
+                    hs.Path.append(parent, x, k % 2 == 0)
+                parent.sliced = None if sliced == "parent-not-sliced" else set(range(0, n, 2))
+                conds = list(parent.conditions)  # as stored (simplified)
                 log = []
-                conds = [OpaqueCond(k, log) for k in range(n)]
-                p = object.__new__(hs.Path)
-                p.conditions = {c: True for c in conds}
-                p.solver = Poison()
-                the_ctx = object()
-                interp.externals[hs.Context] = lambda i, *a, **k: the_ctx
-                interp.externals[hs.create_solver] = lambda i, *a, **k: RecSolver(k.get("ctx"), log)
-                args = config(cache_solver=True) if cache else config()
-                q = interp.call(hs.Path.to_smt2, [p, args], {})
-                ids = [str(1000 + k) for k in range(n)]
-                ctx.oblige("ids-aligned-with-conditions", z3.BoolVal(list(q.assertions) == ids))
-                asserted = [e for e in log if e[0] in ("add", "track")]
-                want = [("track", ("translated", k, the_ctx), str(1000 + k)) if cache else ("add", ("translated", k, the_ctx)) for k in range(n)]
-                ctx.oblige("every-condition-asserted-once-in-order", z3.BoolVal(asserted == want), info={"got": str(asserted)[:300]})
-                ser = [i for i, e in enumerate(log) if e[0] == "to_smt2"]
-                last_assert = max([i for i, e in enumerate(log) if e[0] in ("add", "track")], default=-1)
-                ctx.oblige("serialised-after-all-assertions", z3.BoolVal(len(ser) == 1 and ser[0] > last_assert))
-                ctx.oblige("query-text-is-the-serialisation-without-check-sat", z3.BoolVal(q.smtlib == "BODY\n\n"))
+                child = _blank_path(RecSolver(None, log))
+                interp.call(hs.Path.extend_path, [child, parent], {})
+                ctx.oblige("extend_path: the child carries every condition of the parent (same order and flags)", z3.BoolVal(list(child.conditions.items()) == list(parent.conditions.items())))
+                ctx.oblige("extend_path: the child owns its own copy", z3.BoolVal(child.conditions is not parent.conditions and child.var_to_conds is not parent.var_to_conds and child.concretization is not parent.concretization))
+                added = [e[1] for e in log if e[0] == "add"]
+                if sliced == "parent-not-sliced":
+                    ctx.oblige("extend_path: the solver receives every condition", z3.BoolVal(len(conds) == n and len(added) == n and all(x is y for x, y in zip(added, conds))))
+                else:
+                    want = [x for k, x in enumerate(conds) if k in parent.sliced]
+                    ctx.oblige("extend_path: the solver receives exactly the sliced subset (only conditions of the path)", z3.BoolVal(len(added) == len(want) and all(x is y for x, y in zip(added, want))))
 
-            out.append(Case(f"{PROP}/sevm.Path.to_smt2", f"n={n},cache={cache}", harness, sources=("halmos.sevm:Path.to_smt2",)))
+            out.append(Case(f"{PROP}/sevm.Path.extend_path", f"n={n},{sliced}", harness, replay=replay_to_smt2, sources=("halmos.sevm:Path.extend_path",)))
     return out
 
 
@@ -256,18 +413,18 @@ def refine_ctx_cases():
 
 
 def build_cases(tier="quick"):
-    return to_smt2_cases() + dump_cases() + refine_ctx_cases()
+    return to_smt2_cases() + path_growth_cases() + dump_cases() + refine_ctx_cases()
 
 
 def grounds():
-    return [Ground(f"{PROP}/solve.refine", ground_refine, sources=("halmos.solve:refine",)), Ground(f"{PROP}/lemma", ground_lemma)]
+    return [Ground(f"{PROP}/solve.refine", ground_refine, sources=("halmos.solve:refine",)), Ground(f"{PROP}/solve.refine", ground_refine_joint, sources=("halmos.solve:refine",)), Ground(f"{PROP}/lemma", ground_lemma)]
 
 
 ASSUMPTIONS = [
     "refine is a text rewrite: its contract is proved for every abstraction symbol the code declares (finite domain, found by introspection) on the query text the real serialiser produces for that symbol; that the regular expressions do not touch other text is checked on those queries only (frame clause), not for arbitrary query text",
     "z3.parse_smt2_string gives the refined text its SMT-LIB meaning; the equivalence with D_f is then an SMT validity over all operand values",
     "Path.to_smt2 is proved for n <= 3 opaque conditions (bounded in n; the body treats conditions opaquely); z3's Solver.add/assert_and_track/to_smt2/translate are trusted externals",
-    "that self.conditions holds every constraint accumulated on the path (Path.append / extend_path) is not under contract in this round",
+    "Path.append / Path.extend_path are proved on concrete representative conditions (the bodies treat conditions opaquely apart from simplify/is_true/is_false and the variable-dependency bookkeeping); that every caller adds its constraints through Path.append is not under contract here",
     "pyvc and its Python-subset semantics are trusted",
 ]
 TRUSTED = ["pyvc (this repository's verifier)", "z3 4.12.6 (parser and QF_BV solver)", "specs/evm_word.py"]
